@@ -89,6 +89,8 @@ def blocks_of(case: str, out: str):
             disturb.append(idx)
         if len(e) > 2 and e[1] == "end" and e[2] not in ("ok", "Cancelled"):
             disturb.append(idx)  # a failing member makes TaskGroup cancel its parent
+        if (len(e) > 3 and e[1] == "bodyend" and e[3] != "ok") or e[1] == "raise":
+            disturb.append(idx)  # a failing body makes TaskGroup cancel the members
         k = e[1]
         if k in ("den", "dened", "dex", "dexed"):
             b = disp_block[int(e[2])]
@@ -107,28 +109,39 @@ def blocks_of(case: str, out: str):
 
 
 def pending_cancel_at_exit(evs, r, async_blocks) -> bool:
-    """CAUSE-based: the task called ctx.cancel() on itself and the request has not been delivered between that call and
-    the end of this block's body (no suspension point of the task since: no gate await, no nested block left through a
-    cancellation, no cancellation caught or reported by check_cancellation) – so it is still pending when the scope
-    exit starts."""
-    t = str(r["task"])
-    end = None
+    """The known-finding situation: a cancellation reaches the scope task before the `__aexit__` coroutines started by
+    `gather` took their first step.  CAUSE observed directly: asyncio reports a request still undelivered when the body
+    ends (`pending` field of `bodyend`: Task.cancel() landed while the task was runnable - ctx.cancel() in the body, a
+    task-group abort reaching a member about to resume - with no suspension point since).  One more way in cannot be
+    read off the log exactly: a sibling/member failed earlier and TaskGroup's done-callback (which cancels the others)
+    runs in the same loop turn, right after this task suspended in the exit's gather; it is recognised by its effect
+    (no `__aexit__` started at all, caller cancelled) *together with* such a failure preceding the exit."""
+    bodyend = left = None
+    ndex = 0
     for idx, e in r["ev"]:
         if e[1] == "bodyend":
-            end = idx
-    if end is None:
+            bodyend = (idx, e)
+        elif e[1] == "left":
+            left = (idx, e)
+        elif e[1] == "dex":
+            ndex += 1
+    if bodyend is not None and len(bodyend[1]) > 4 and bodyend[1][4] == "1":
+        return True
+    if left is None or left[1][3] != "Cancelled" or ndex:
         return False
-    last = None
-    for idx in range(end):
-        e = evs[idx]
-        if e[0] != t:
-            continue
-        if e[1] == "cancelself":
-            last = idx
-        elif last is not None and (e[1] == "resume" or (e[1] == "left" and e[3] == "Cancelled")
-                                   or (e[1] == "caught" and e[2] == "Cancelled") or (e[1] == "check" and e[2] == "1")):
-            last = None
-    return last is not None
+    if bodyend is None and not any(e[1] == "dened" and e[3] == "ok" for _i, e in r["ev"]):
+        return False  # rollback flavour needs something that entered
+    return any(e[0] != "X" and len(e) > 2 and e[1] == "end" and e[2] not in ("ok", "Cancelled")
+               for e in evs[:left[0]])
+
+
+def _from_check(evs, idx, t) -> bool:
+    """the CancelledError just caught was raised by ctx.check_cancellation itself (which does not consume the
+    pending request), not delivered by the event loop"""
+    for j in range(idx - 1, -1, -1):
+        if evs[j][0] == t:
+            return evs[j][1] == "check" and evs[j][2] == "1"
+    return False
 
 
 def facts(r):
@@ -221,7 +234,7 @@ def monitor(case: str, out: str) -> list[str]:
             entered = f["dened"].get(d) == "ok"
             nx = len(f["dex"].get(d, []))
             if entered and nx == 0:
-                if r["pending"] and not f["dex"] and f["left"][1] == "Cancelled":
+                if r["pending"] and not f["dex"] and f["left"][1] == "Cancelled":  # normal exit or rollback
                     fails.add("disposables.pending-cancel-skips-exit")  # known finding (exact history only)
                 else:
                     fails.add("disposables.entered-not-exited")
